@@ -6,6 +6,19 @@ BASELINE = ("cd /repo && cargo nextest run --workspace --no-fail-fast --tool-con
             "--profile pb --test-threads 8 --offline")
 TECH = "contract-based deductive verification: Verus (Z3) on functions of /repo extracted mechanically on every run"
 CLAIMED = {
+ "C09": dict(
+   text=("Partial claim — the 'fails atomically' half, on the one function that decides it. The verbatim text of pavexc_cli::generate "
+         "(the compiler proper, App::build and App::codegen, is an opaque oracle whose verdicts are ghost constants of the run) is "
+         "under contract: GeneratedApp::persist — the only way the SDK is touched — carries the protocol precondition 'the analysis "
+         "accepted the blueprint AND code generation succeeded', which Verus discharges at its call site; a rejected blueprint never "
+         "exits 0; exit 0 implies both verdicts were positive. With C10's obligations on the same text (no write primitive is reachable "
+         "under --check, every SDK write goes through the writer) this is the statement's second sentence for every blueprint."),
+   note=("NOT decided: termination, panic-freedom and 'at least one error diagnostic is printed' are properties of the whole 26 kLoC "
+         "compiler behind App::build (Verus rejects its text, Kani proves no termination); a failing I/O operation half-way through "
+         "GeneratedApp::persist (manifest written, lib.rs not) is outside the quantifier (it ranges over blueprints). No native replay: "
+         "pavexc cannot run here (it needs rustdoc JSON from a nightly that is not installed), so a refuted obligation is reported with "
+         "no-failing-input-found. Assumed: App::build/codegen return Ok exactly when the run's ghost verdicts say so."),
+   design="§3/C09"),
  "C15": dict(
    text=("Partial claim — the glue pavex itself wrote around the third-party decoders. Verus discharges, on the real text of "
          "PathParams::extract (loop invariant, unbounded number of parameters), EncodedParamValue::{new, decode, as_str}, "
